@@ -161,12 +161,22 @@ fn run(sid: usize, s: &str) -> Option<String> {
             let mut p = Recursive::<chumsky::recursive::Indirect<&str, usize, X>>::declare();
             p.define(nest_body(p.clone()));
             let mut q = p.clone();
+            let site = format!("{}:{}", file!(), line!() + 2);      // the line of the second `define` below
             let second = std::panic::catch_unwind(std::panic::AssertUnwindSafe(|| {
                 q.define(just('x').to(7usize));
             }));
             let m = show(p.clone(), s);
             let e = show(nest_fn(), s);
+            // the panic is "at the definition site": its message names the file and line of the offending `define`
+            let named = match &second {
+                Err(pl) => {
+                    let msg = pl.downcast_ref::<String>().cloned().or_else(|| pl.downcast_ref::<&str>().map(|x| x.to_string())).unwrap_or_default();
+                    if msg.contains(&site) { None } else { Some(msg) }
+                }
+                Ok(()) => None,
+            };
             if second.is_ok() { format!("DIFF M second define accepted; {} | P panic at the definition site", m) }
+            else if let Some(msg) = named { format!("DIFF M panic message names another place: {} | P names {}", msg.replace('\n', " "), site) }
             else if m != e { format!("DIFF M {} | P {}", m, e) } else { format!("same {}", m) }
         }
         // 21: a recursive parser cloned, the original dropped, the clone boxed and used through the box
